@@ -18,7 +18,7 @@ VARIABLES seqs, attached, hist
 bvars == <<seqs, attached, hist>>
 
 Node(t, a, b) == [t |-> t, a |-> a, b |-> b]
-\* leaf nodes: const32 v | const64 v | lset l | lget l | drop | br target | brif target ; structured: block s | loop s | ifelse c alt
+\* leaf nodes: const32 v | const64 v | lset l | lget l | drop | br target | brif target | brtable t1 t2 ; structured: block s | loop s | ifelse c alt
 InsertAt(s, pos, nodes) == SubSeq(s, 1, pos) \o nodes \o SubSeq(s, pos + 1, Len(s))
 Ins(sq, pos, nodes) == [seqs EXCEPT ![sq + 1] = InsertAt(@, pos, nodes)]
 
@@ -67,6 +67,20 @@ Attach(sq, pos, d, kind) ==
   /\ attached' = attached \cup {d}
   /\ hist' = Append(hist, [op |-> "attach", seq |-> sq, pos |-> pos, kind |-> kind, v |-> 0, d |-> d])
 
+\* const 1 ; IfElse whose two arms are dangling sequences made earlier (in either order of allocation)
+AttachIf(sq, pos, d1, d2) ==
+  /\ d1 \notin attached /\ d2 \notin attached /\ d1 # d2 /\ d1 # 0 /\ d2 # 0 /\ sq \notin Desc(d1) /\ sq \notin Desc(d2)
+  /\ seqs' = Ins(sq, pos, <<Node("const32", 1, -1), Node("ifelse", d1, d2)>>)
+  /\ attached' = attached \cup {d1, d2}
+  /\ hist' = Append(hist, [op |-> "attachif", seq |-> sq, pos |-> pos, kind |-> "ifelse", v |-> d2, d |-> d1])
+
+\* const 0 ; br_table [t1] t2 : two enclosing sequences
+BrTable(sq, pos, t1, t2) ==
+  /\ t1 \in Ancestors(sq) /\ t2 \in Ancestors(sq)
+  /\ seqs' = Ins(sq, pos, <<Node("const32", 0, -1), Node("brtable", t1, t2)>>)
+  /\ UNCHANGED attached
+  /\ hist' = Append(hist, [op |-> "brtable", seq |-> sq, pos |-> pos, kind |-> "", v |-> t2, d |-> t1])
+
 \* br / (const 0 ; br_if) to an enclosing sequence
 Branch(sq, pos, target, cond) ==
   /\ target \in Ancestors(sq)
@@ -74,16 +88,20 @@ Branch(sq, pos, target, cond) ==
   /\ UNCHANGED attached
   /\ hist' = Append(hist, [op |-> (IF cond THEN "brif" ELSE "br"), seq |-> sq, pos |-> pos, kind |-> "", v |-> 0, d |-> target])
 
-CONSTANT MaxOps
+CONSTANTS MaxOps,     \* bound on the history length
+          UnitKinds,  \* which stack-neutral units may be inserted ({} = structure-only histories)
+          MaxPos      \* insertion positions 0..MaxPos
 Init == seqs = << <<>> >> /\ attached = {0} /\ hist = <<>>
 Next ==
   /\ Len(hist) < MaxOps
-  /\ \/ \E sq \in SeqIds, pos \in 0..3, kind \in {"set32", "set64", "getp"} : pos \in Positions(sq) /\ Unit(sq, pos, kind, Len(hist) + 1)
-     \/ \E sq \in SeqIds, pos \in 0..3, kind \in {"block", "loop"} : pos \in Positions(sq) /\ NewBlock(sq, pos, kind)
-     \/ \E sq \in SeqIds, pos \in 0..3 : pos \in Positions(sq) /\ NewIfElse(sq, pos)
+  /\ \/ \E sq \in SeqIds, pos \in 0..MaxPos, kind \in {"set32", "set64", "getp"} : pos \in Positions(sq) /\ Unit(sq, pos, kind, Len(hist) + 1)
+     \/ \E sq \in SeqIds, pos \in 0..MaxPos, kind \in {"block", "loop"} : pos \in Positions(sq) /\ NewBlock(sq, pos, kind)
+     \/ \E sq \in SeqIds, pos \in 0..MaxPos : pos \in Positions(sq) /\ NewIfElse(sq, pos)
      \/ NewDangling
-     \/ \E sq \in SeqIds, pos \in 0..3, d \in SeqIds, kind \in {"block", "loop"} : pos \in Positions(sq) /\ Attach(sq, pos, d, kind)
-     \/ \E sq \in SeqIds, pos \in 0..3, t \in SeqIds, c \in BOOLEAN : pos \in Positions(sq) /\ Branch(sq, pos, t, c)
+     \/ \E sq \in SeqIds, pos \in 0..MaxPos, d \in SeqIds, kind \in {"block", "loop"} : pos \in Positions(sq) /\ Attach(sq, pos, d, kind)
+     \/ \E sq \in SeqIds, pos \in 0..MaxPos, t \in SeqIds, c \in BOOLEAN : pos \in Positions(sq) /\ Branch(sq, pos, t, c)
+     \/ \E sq \in SeqIds, pos \in 0..MaxPos, d1 \in SeqIds, d2 \in SeqIds : pos \in Positions(sq) /\ AttachIf(sq, pos, d1, d2)
+     \/ \E sq \in SeqIds, pos \in 0..MaxPos, t1 \in SeqIds, t2 \in SeqIds : pos \in Positions(sq) /\ BrTable(sq, pos, t1, t2)
 Spec == Init /\ [][Next]_bvars
 
 -----------------------------------------------------------------------------
@@ -103,6 +121,9 @@ FlatNode(n, stack) ==
          \* label depth = number of constructs between the branch and its target
          LET p == CHOOSE x \in DOMAIN stack : stack[x] = n.a /\ \A y \in DOMAIN stack : stack[y] = n.a => y <= x IN
          <<Op(IF n.t = "br" THEN "Br" ELSE "BrIf", "", -1, <<Len(stack) - p>>, "")>>
+    [] n.t = "brtable" ->
+         LET Depth(t) == Len(stack) - (CHOOSE x \in DOMAIN stack : stack[x] = t /\ \A y \in DOMAIN stack : stack[y] = t => y <= x) IN
+         <<Op("BrTable", "", -1, <<Depth(n.a), Depth(n.b)>>, "")>>
     [] n.t = "block"   -> <<Op("Block", "", -1, <<>>, "()->()")>> \o FlatSeq(n.a, Append(stack, n.a), "End")
     [] n.t = "loop"    -> <<Op("Loop", "", -1, <<>>, "()->()")>> \o FlatSeq(n.a, Append(stack, n.a), "End")
     [] n.t = "ifelse"  -> <<Op("If", "", -1, <<>>, "()->()")>> \o FlatSeq(n.a, Append(stack, n.a), "Else") \o FlatSeq(n.b, Append(stack, n.b), "End")
@@ -129,9 +150,14 @@ BranchesInRange ==
       Ok(k, d) == IF k > Len(f) THEN TRUE
                   ELSE IF f[k].o \in {"Block", "Loop", "If"} THEN Ok(k + 1, d + 1)
                   ELSE IF f[k].o = "End" THEN Ok(k + 1, d - 1)
-                  ELSE IF f[k].o \in {"Br", "BrIf"} THEN f[k].labels[1] < d /\ Ok(k + 1, d)
+                  ELSE IF f[k].o \in {"Br", "BrIf", "BrTable"} THEN (\A q \in DOMAIN f[k].labels : f[k].labels[q] < d) /\ Ok(k + 1, d)
                   ELSE Ok(k + 1, d)
   IN Ok(1, 1)
+\* state view for enumeration of distinct trees (one history per tree and allocation order)
+TreeView == <<seqs, attached, Len(hist)>>
 \* enumeration for replay: one line per build history
 EmitCase == hist # <<>> => PrintT("CASE " \o ToJson(hist))
+\* structure-only enumeration: complete trees (nothing left dangling) whose last step places a branch
+EmitStructCase ==
+  (Len(hist) = MaxOps /\ attached = SeqIds /\ hist[Len(hist)].op \in {"br", "brif", "brtable"}) => PrintT("CASE " \o ToJson(hist))
 =============================================================================
